@@ -364,7 +364,7 @@ def run(tier, seed):
                 'built models with YAML-significant / unicode names, non-default defenses, asset and association extras, '
                 'duplicate-named association classes; each x {json, yml, yaml} round trip + second save, and x every '
                 'permutation of the asset mapping in a hand-written file x type-only shorthand')
-    depth, K = (4, 1) if tier == 'quick' else (5, 2)
+    depth, K = (4, 1) if tier == 'quick' else (5, 1)
     scratch = common.Result(PROP, tier, seed, 'model_checking')
     reps = engine_hist.explore(make_system, ('OPS',), depth, K, scratch, seed, label=f'[OPS,D{depth},K{K}]')
     # dedupe by model content (many histories build the same model)
